@@ -19,8 +19,8 @@ ASSUMPTIONS = ["particle counts per CPU are concrete (0, 1, 2); the lengths of t
                "integer and byte columns hold values in [-1000, 1000] / [-100, 100]"]
 BOUNDS = {"quick": {"particles": "ncpu 1-2, npart per cpu in {0,1,2}, ndim 1-3, descriptors mixing d/i/b in 3 orders, sortby on a float and on an int column",
                     "sinks": "nsink 1-2, empty file, missing file, code-unit and legacy bracket unit lines, ndim 2-3"},
-          "thorough": {"as": "quick with 3 particles per cpu"}}
-FLOOR = {"quick": 600, "thorough": 1500}
+          "thorough": {"as": "quick with 3 particles per cpu, 3 CPU files (4 count patterns), sortby on byte columns, 3 sinks"}}
+FLOOR = {"quick": 600, "thorough": 5000}
 SHADOW_EVERY = 1
 LIMITS = {"quick": {"max_paths": 300, "budget_s": 200}, "thorough": {"max_paths": 2000, "budget_s": 600}}
 
@@ -49,9 +49,17 @@ def configs(tier):
                 out.append(dict(kind="part", ndim=ndim, pset=pset, ncpu=ncpu, npart=nparts, sort=None))
         out.append(dict(kind="part", ndim=ndim, pset="std", ncpu=2, npart=[2, 1], sort="mass"))
         out.append(dict(kind="part", ndim=ndim, pset="std", ncpu=2, npart=[1, 2], sort="identity"))
+    if tier != "quick":
+        for ndim in (1, 3):
+            for pset in PART_SETS:
+                for nparts in ([1, 0, 3], [3, 2, 1], [0, 0, 2], [2, 2, 2]):
+                    out.append(dict(kind="part", ndim=ndim, pset=pset, ncpu=3, npart=nparts, sort=None))
+            out.append(dict(kind="part", ndim=ndim, pset="std", ncpu=3, npart=[2, 1, 1], sort="mass", _split=3))
+            out.append(dict(kind="part", ndim=ndim, pset="std", ncpu=2, npart=[2, 1], sort="family"))
+            out.append(dict(kind="part", ndim=ndim, pset="bytes-mid", ncpu=2, npart=[1, 2], sort="tag"))
     for ndim in (2, 3):
         for dialect in ("code", "legacy"):
-            for nsink in (1, 2):
+            for nsink in ((1, 2) if tier == "quick" else (1, 2, 3)):
                 out.append(dict(kind="sink", ndim=ndim, dialect=dialect, nsink=nsink))
     out.append(dict(kind="sink", ndim=3, dialect="code", nsink=-1))       # empty file
     out.append(dict(kind="sink", ndim=3, dialect="code", nsink=None))     # no file
